@@ -4,7 +4,7 @@ against /repo's current working tree with the repository's own dependency pins."
 import os, re, shutil, sys
 
 REPO = os.environ.get("VERIF_REPO", "/repo")
-HARNESS = os.path.join(os.path.dirname(os.path.abspath(__file__)), "..", "harness")
+HARNESS = os.environ.get("VERIF_HARNESS_DIR") or os.path.join(os.path.dirname(os.path.abspath(__file__)), "..", "harness")
 
 def main():
     src = open(os.path.join(REPO, "go.mod")).read()
